@@ -1,4 +1,7 @@
 import RactorModel.Lemmas.RegistryView
+import RactorModel.Lemmas.RegistryConcEv
+import RactorModel.Extracted
+import RactorModel.Lemmas.PidRegistryView
 
 /-!
 # C10 — a name maps to at most one live actor and is released on exit
@@ -258,6 +261,506 @@ example : ok (view (run false init f2Witness)) = true ∧ whereIs (run false ini
 example : noNamedRemoteProxy (spawnNamedOps 0 7 ++ spawnProxyOps 1 none ++ exitOps 1) = true := by decide
 example : noNamedRemoteProxy f2Witness = false := by decide
 
+/-! ### Round 4: constructor, `set_status` and the pid monitors as programs (`Model/RegistryConc.lean`)
+
+`Reg2.Op` lists are arbitrary interleavings of: the three statements of `ActorCell::new` (name insert, pid
+insert — which may fail —, rollback), `new_remote`, `set_status` calls (the `fetch_max`, then the cleanup
+block statement by statement: `demonitor`, `unregister_pid`, `registry::unregister`), `monitor` /
+`demonitor` of the pid registry.  `publish a Stopped` is not guarded. -/
+
+/-- the invariant of the split model, for every interleaving -/
+theorem conc_invariant (ops : List Reg2.Op) : Reg2.RInv (Reg2.run Reg2.init ops) := Reg2.RInv.init.run ops
+
+/-- whoever a lookup returns owns the name: it was constructed with that name, is local, and is between its
+own insert and its own removal; two such cells never share a name -/
+theorem conc_name_has_one_owner (ops : List Reg2.Op) (n a : Nat)
+    (h : (Reg2.run Reg2.init ops).names n = some a) :
+    ((Reg2.run Reg2.init ops).act a).name = some n ∧ ((Reg2.run Reg2.init ops).act a).remote = false ∧
+    Reg2.holds ((Reg2.run Reg2.init ops).act a) = true ∧
+    ∀ b, ((Reg2.run Reg2.init ops).act b).name = some n → Reg2.holds ((Reg2.run Reg2.init ops).act b) = true → b = a := by
+  have I := conc_invariant ops
+  obtain ⟨h1, h2⟩ := I.owner n a h
+  refine ⟨h1, ?_, h2, ?_⟩
+  · simp only [Reg2.holds, Bool.and_eq_true, Bool.not_eq_eq_eq_not, Bool.not_true] at h2; exact h2.1.1
+  · intro b hb1 hb2
+    have := I.entry b n hb1 hb2
+    rw [h] at this; exact (Option.some.inj this).symm
+
+/-- a failed registration — `AlreadyRegistered` at the name insert, or a failing `register_pid` followed by
+the rollback — leaves no name behind, whatever other constructors (same name or not), lookups and exits
+interleave: no entry of the table points at a cell whose `new` returned `Err` -/
+theorem failed_registration_leaves_no_name (ops : List Reg2.Op) (a : Nat)
+    (hf : ((Reg2.run Reg2.init ops).act a).pc = .failed) (n : Nat) :
+    (Reg2.run Reg2.init ops).names n ≠ some a := by
+  intro h
+  have := ((conc_invariant ops).owner n a h).2
+  simp [Reg2.holds, hf] at this
+
+/-- the rollback is an unguarded remove-by-key; it is safe because at that point the entry under the name
+is the cell's own (nobody else can have taken the name in the window), and afterwards the name is free -/
+theorem rollback_removes_own_entry (ops : List Reg2.Op) (a n : Nat)
+    (hpc : ((Reg2.run Reg2.init ops).act a).pc = .consRollback)
+    (hn : ((Reg2.run Reg2.init ops).act a).name = some n) :
+    (Reg2.run Reg2.init ops).names n = some a ∧
+    (Reg2.step (Reg2.run Reg2.init ops) (.rollback a)).names n = none ∧
+    ((Reg2.step (Reg2.run Reg2.init ops) (.rollback a)).act a).pc = .failed := by
+  have I := conc_invariant ops
+  have hp := I.pcs a
+  have hh : Reg2.holds ((Reg2.run Reg2.init ops).act a) = true := by
+    simp only [Reg2.pcOk, hpc] at hp
+    simp [Reg2.holds, hpc, hp.2.1, hn]
+  refine ⟨I.entry a n hn hh, ?_, ?_⟩
+  · simp [Reg2.step, hpc, hn, Reg2.setPc, Reg2.upd]
+  · simp [Reg2.step, hpc, hn, Reg2.setPc, Reg2.upd]
+
+/-- the window between the two DashMap operations of `new` is visible: a lookup can return a cell that
+`where_is_pid` does not know — exactly while the cell is between its name insert and its pid insert (or
+rollback), or while its elected cleanup block is between `unregister_pid` and `registry::unregister` -/
+theorem name_without_pid_window (ops : List Reg2.Op) (n a : Nat)
+    (h : (Reg2.run Reg2.init ops).names n = some a) (hp : (Reg2.run Reg2.init ops).pids a = false) :
+    ((Reg2.run Reg2.init ops).act a).pc = .consPid ∨ ((Reg2.run Reg2.init ops).act a).pc = .consRollback ∨
+    ∃ st, ((Reg2.run Reg2.init ops).act a).pc = .blk [.unregName] st := by
+  have I := conc_invariant ops
+  have h2 := (I.owner n a h).2
+  have h3 := I.pid a
+  have h4 := I.pcs a
+  rw [hp] at h3
+  cases hpc : ((Reg2.run Reg2.init ops).act a).pc with
+  | consPid => exact .inl rfl
+  | consRollback => exact .inr (.inl rfl)
+  | blk rest st =>
+    right; right
+    simp only [Reg2.pcOk, hpc] at h4
+    rcases h4.2 with e | e | e | e <;> subst e
+    · simp [Reg2.pidHeld, Reg2.holds, hpc] at h2 h3; simp [h2.1] at h3
+    · simp [Reg2.pidHeld, Reg2.holds, hpc] at h2 h3; simp [h2.1] at h3
+    · exact ⟨st, rfl⟩
+    · simp [Reg2.holds, hpc] at h2
+  | live =>
+    simp [Reg2.pidHeld, Reg2.holds, hpc] at h2 h3
+    simp [h2.1.1] at h3
+    exact absurd h2.2 (Nat.not_lt.mpr h3)
+  | none => simp [Reg2.holds, hpc] at h2
+  | consName => simp [Reg2.holds, hpc] at h2
+  | failed => simp [Reg2.holds, hpc] at h2
+
+/-- clause 5 with the order as a hypothesis about the callers instead of a guard of the model: if every
+`set_status(Stopped)` is issued on an actor that is already at least `Stopping` (`Reg2.Ordered`; discharged for
+the source text by `stopped_call_sites_match_source` below), `where_is` never returns an actor whose
+`wait()` has returned -/
+theorem whereIs_sound_conc (ops : List Reg2.Op) (hord : Reg2.Ordered Reg2.init ops = true) (n a : Nat)
+    (h : (Reg2.run Reg2.init ops).names n = some a) :
+    ((Reg2.run Reg2.init ops).act a).status ≠ Reg2.stopped := by
+  intro hs
+  have := Reg2.OInv.run Reg2.RInv.init Reg2.OInv.init ops hord a hs
+  rw [((conc_invariant ops).owner n a h).2] at this; cases this
+
+/-- … and without the hypothesis it is false: `set_status(Stopped)` on a running actor publishes `Stopped`
+first and unregisters afterwards — a lookup in between returns an actor whose `wait()` has returned -/
+theorem whereIs_unsound_without_caller_order :
+    let s := Reg2.run Reg2.init [.new 0 (some 7), .regName 0, .regPid 0, .publish 0 2, .publish 0 6]
+    s.names 7 = some 0 ∧ (s.act 0).status = Reg2.stopped ∧
+      Reg2.Ordered Reg2.init [.new 0 (some 7), .regName 0, .regPid 0, .publish 0 2, .publish 0 6] = false := by
+  decide
+
+/-- clause 6: once every local actor that carries the name is Stopped, the name is free (so the next
+`regName` for it succeeds) -/
+theorem name_free_after_exit_conc (ops : List Reg2.Op) (hord : Reg2.Ordered Reg2.init ops = true) (n : Nat)
+    (hall : ∀ a, ((Reg2.run Reg2.init ops).act a).name = some n →
+      ((Reg2.run Reg2.init ops).act a).status = Reg2.stopped) :
+    (Reg2.run Reg2.init ops).names n = none := by
+  cases h : (Reg2.run Reg2.init ops).names n with
+  | none => rfl
+  | some a =>
+    exact absurd (hall a ((conc_invariant ops).owner n a h).1) (whereIs_sound_conc ops hord n a h)
+
+/-- pid table (clause 8): `get_all_pids` / `where_is_pid` know exactly the local actors between their
+`register_pid` and their own `unregister_pid`; a remote id is never in the table -/
+theorem pid_table_is_live_locals (ops : List Reg2.Op) (a : Nat) :
+    (Reg2.run Reg2.init ops).pids a = Reg2.pidHeld ((Reg2.run Reg2.init ops).act a) ∧
+    (((Reg2.run Reg2.init ops).act a).remote = true → Reg2.whereIsPid (Reg2.run Reg2.init ops) a = none) := by
+  have h := (conc_invariant ops).pid a
+  refine ⟨h, fun hr => ?_⟩
+  simp [Reg2.whereIsPid, h, Reg2.pidHeld, hr]
+
+/-- `register_pid` reports `Spawn(a)` to exactly the listeners registered at that instant, once each -/
+theorem spawn_reported_to_current_monitors (s : Reg2.State) (a : Nat) (h : (s.act a).pc = .consPid) :
+    (Reg2.step s (.regPid a)).log = s.log ++ (Reg2.listeners s).map (fun l => (l, true, a)) ∧
+    ((Reg2.listeners s).map (fun l => (l, true, a))).Nodup := by
+  refine ⟨by simp [Reg2.step, h, Reg2.setPc, Reg2.fanout], ?_⟩
+  exact (Reg2.fanout_pairwise s true a).imp (fun h => h.1)
+
+/-- `unregister_pid` (second statement of the elected cleanup block) reports `Terminate(a)` to exactly the
+listeners registered at that instant, once each, if `a` is in the table; nothing otherwise -/
+theorem terminate_reported_to_current_monitors (s : Reg2.State) (a st : Nat) (rest : List Reg2.Stmt)
+    (h : (s.act a).pc = .blk (.unregPid :: rest) st) :
+    (Reg2.step s (.bstep a)).log =
+      s.log ++ (if (s.act a).remote = false ∧ s.pids a = true then (Reg2.listeners s).map (fun l => (l, false, a)) else []) := by
+  by_cases hc : (s.act a).remote = false ∧ s.pids a = true
+  · simp [Reg2.step, h, Reg2.exec, Reg2.setPc, Reg2.fanout, hc.1, hc.2]
+  · have : (!(s.act a).remote && s.pids a) = false := by
+      cases hr : (s.act a).remote <;> cases hp : s.pids a <;> simp_all
+    simp [Reg2.step, h, Reg2.exec, Reg2.setPc, this, hc]
+
+/-- for every interleaving: no listener is told the same event twice; a `Terminate(a)` is never followed by a
+`Spawn(a)` (Spawn before Terminate); every event is about a local actor whose `register_pid` succeeded
+(nothing for remote ids, nothing for rejected cells), every `Terminate` about one that has left the table -/
+theorem pid_events_once_in_order (ops : List Reg2.Op) :
+    (Reg2.run Reg2.init ops).log.Pairwise Reg2.EvRel ∧
+    (∀ e ∈ (Reg2.run Reg2.init ops).log, Reg2.spawned ((Reg2.run Reg2.init ops).act e.2.2) = true) ∧
+    (∀ e ∈ (Reg2.run Reg2.init ops).log, e.2.1 = false → Reg2.terminated ((Reg2.run Reg2.init ops).act e.2.2) = true) :=
+  ⟨Reg2.LogOk.run Reg2.RInv.init List.Pairwise.nil ops, (conc_invariant ops).evSp, (conc_invariant ops).evTm⟩
+
+/-! #### ties to the source text (E-SRC) -/
+
+/-- `set_status`: the status word is published first, then the block in the order of `Reg2.blockProg`, the
+waiters are notified last -/
+theorem set_status_block_matches_source :
+    Extracted.setStatusOrder =
+      "inner.set_status" :: (Reg2.blockProg.map Reg2.Stmt.text ++ ["demonitor_all", "leave_all", "notify_stop_listener"]) ∧
+    Extracted.setStatusCleanupElectedOnce = true := by decide
+
+/-- the caller order (`Reg2.Ordered`): `set_status(Stopped)` has exactly two call sites; in `cleanup` it is
+preceded by `set_status(Stopping)`; in `spawn_linked_remote` it runs only after `start(..)` has returned an
+error, i.e. after the lifecycle guard's `cleanup` -/
+theorem stopped_call_sites_match_source :
+    Extracted.stoppedCallSites = ["actor.rs:cleanup", "actor.rs:spawn_linked_remote"] ∧
+    Extracted.remoteStoppedAfterFailedStart = true ∧
+    Extracted.cleanupOrder.head? = some "set_status:Stopping" ∧
+    Extracted.cleanupOrder.getLast? = some "set_status:Stopped" := by decide
+
+/-- the fix of F2: the name is unregistered only by cells with a local id, and `new_remote` registers nothing -/
+theorem unregister_guarded_by_is_local :
+    Extracted.unregisterGuardedByIsLocal = true ∧ Extracted.newRemoteTouchesRegistries = false := by decide
+
+/-- `ActorCell::new` (and its thread-local twin): name insert, pid insert, rollback on failure, in this order -/
+theorem constructor_order_matches_source :
+    Extracted.newRegistryCalls = ["register", "register_pid", "unregister"] ∧
+    Extracted.newRollsBackOnPidFailure = true ∧
+    Extracted.newThreadLocalRegistryCalls = ["register", "register_pid", "unregister"] := by decide
+
+/-- the pid registry only ever looks at local ids; events are sent after the table changed -/
+theorem pid_registry_guards_match_source :
+    Extracted.pidRegistryLocalGuards = [("register_pid", true), ("unregister_pid", true), ("where_is_pid", true)] ∧
+    Extracted.pidEventsAfterTableChange = true := by decide
+
+/-- non-vacuity: two same-name constructors race, the loser's pid insert of an unrelated third fails and is
+rolled back, a monitor sees Spawn then Terminate of the winner exactly once -/
+example :
+    let s := Reg2.run Reg2.init [.monitor 9, .new 0 (some 7), .new 1 (some 7), .regName 1, .regName 0, .regPid 1,
+      .new 2 (some 8), .regName 2, .regPidFail 2, .rollback 2, .publish 1 2, .publish 1 5, .bstep 1, .bstep 1,
+      .bstep 1, .bstep 1, .publish 1 6]
+    (s.act 0).pc = .failed ∧ (s.act 2).pc = .failed ∧ s.names 8 = none ∧ s.names 7 = none ∧
+      s.log = [(9, true, 1), (9, false, 1)] ∧ (s.act 1).status = 6 ∧ Reg2.allPids s = [] := by decide
+
+
+end C10
+
+/-!
+# Round 4 — the pid table of the `cluster` build and its lifecycle monitors
+
+Model: `Model/PidRegistry.lean` (one op = one API call on a quiescent system: `register_pid` of a local
+spawn, `new_remote`, the cleanup block `demonitor(self); unregister_pid(self)`, `monitor`, `demonitor`,
+`get_all_pids`, `where_is_pid`); lemmas: `Lemmas/PidRegistry*.lean`. `trace s ops` = every
+`PidLifecycleEvent` sent during the run with its recipient, `dtrace` = those a listener got to handle.
+
+What C10 itself states about the pid table ("the same holds for pid lookup in cluster builds") is
+`pid_get_all_refines`, `pid_where_is_agrees`, `pid_remote_invisible`; the statements about the lifecycle
+*monitors* go beyond the text of C10 (bonus guarantees, labelled `bonus` below).
+-/
+
+namespace C10
+open PidRegistry
+
+/-- `get_all_pids()` is exactly the list of local actors that have not begun to exit — in every
+reachable state, list equality (refinement to the abstract set `liveLocals`), without duplicates. -/
+theorem pid_get_all_refines (ops : List PidRegistry.Op) :
+    PidRegistry.obs (PidRegistry.run PidRegistry.init ops) .getAll
+        = .pids (liveLocals (PidRegistry.run PidRegistry.init ops)) ∧
+    (liveLocals (PidRegistry.run PidRegistry.init ops)).Nodup := by
+  have h := PidRegistry.inv_run PidRegistry.inv_init ops
+  exact ⟨by simp only [PidRegistry.obs, h.pids], liveLocals_nodup h.ids⟩
+
+/-- `where_is_pid(id)` answers `Some` exactly for the live local actors — never for a remote id, never
+for an actor that has begun to exit, never for an id nobody was given. -/
+theorem pid_where_is_agrees (ops : List PidRegistry.Op) (a : Nat) :
+    whereIsPid (PidRegistry.run PidRegistry.init ops) a = true ↔
+      a ∈ liveLocals (PidRegistry.run PidRegistry.init ops) := by
+  have h := PidRegistry.inv_run PidRegistry.inv_init ops
+  have := found_iff h a
+  rw [h.pids] at this
+  rw [← this]
+  simp only [PidRegistry.view, List.mem_filter]
+  constructor
+  · intro hw
+    refine ⟨?_, hw⟩
+    simp only [whereIsPid] at hw
+    split at hw
+    · rename_i x hx; exact (known_iff _ a).mp (getA_known hx)
+    · cases hw
+  · exact fun hw => hw.2
+
+/-- Creating a remote actor (`ActorCell::new_remote`) is invisible: neither table changes, nobody is
+told anything, and both queries answer as before — in ANY state. -/
+theorem pid_remote_invisible (s : PidRegistry.State) (a : Nat) :
+    (PidRegistry.step s (.remote a)).pids = s.pids ∧ (PidRegistry.step s (.remote a)).mons = s.mons ∧
+    events s (.remote a) = [] ∧
+    PidRegistry.obs (PidRegistry.step s (.remote a)) .getAll = PidRegistry.obs s .getAll := by
+  simp only [PidRegistry.step, PidRegistry.obs, events]
+  split <;> simp
+
+/-- The exit of a remote actor leaves the pid table alone and tells nobody (it only drops the remote
+actor's own listener entry). -/
+theorem pid_remote_exit_silent (s : PidRegistry.State) (a : Nat) (x : PidRegistry.Actor)
+    (hx : getA s a = some x) (hr : x.remote = true) :
+    (PidRegistry.step s (.exitBegin a)).pids = s.pids ∧ events s (.exitBegin a) = [] := by
+  simp only [PidRegistry.step, events, hx, hr]
+  constructor
+  · split <;> simp
+  · simp
+
+/-- Nothing is ever reported about a remote id: the subject of every event ever sent, in any run, is a
+local actor (and, ids being unique, no remote actor carries that id). -/
+theorem pid_nothing_for_remote (ops : List PidRegistry.Op) (e : Ev)
+    (he : e ∈ PidRegistry.trace PidRegistry.init ops) :
+    (∃ x ∈ (PidRegistry.run PidRegistry.init ops).actors, x.id = e.who ∧ x.remote = false) ∧
+    ∀ y ∈ (PidRegistry.run PidRegistry.init ops).actors, y.id = e.who → y.remote = false := by
+  have hinv := PidRegistry.inv_run PidRegistry.inv_init ops
+  have hloc : ∃ x ∈ (PidRegistry.run PidRegistry.init ops).actors, x.id = e.who ∧ x.remote = false := by
+    clear hinv
+    generalize PidRegistry.init = s at he ⊢
+    induction ops generalizing s with
+    | nil => cases he
+    | cons op ops ih =>
+      simp only [PidRegistry.trace, List.mem_append] at he
+      rcases he with he | he
+      · obtain ⟨x, hx, hid, hr⟩ := events_local he
+        -- local actors stay (only their phase changes)
+        have keep : ∀ (ops : List PidRegistry.Op) (s : PidRegistry.State),
+            (∃ x ∈ s.actors, x.id = e.who ∧ x.remote = false) →
+            ∃ x ∈ (PidRegistry.run s ops).actors, x.id = e.who ∧ x.remote = false := by
+          intro ops
+          induction ops with
+          | nil => exact fun s h => h
+          | cons op ops ih2 =>
+            intro s ⟨x, hx, hid, hr⟩
+            apply ih2
+            cases op with
+            | spawn b =>
+              simp only [PidRegistry.step]; split
+              · exact ⟨x, hx, hid, hr⟩
+              · exact ⟨x, List.mem_append_left _ hx, hid, hr⟩
+            | remote b =>
+              simp only [PidRegistry.step]; split
+              · exact ⟨x, hx, hid, hr⟩
+              · exact ⟨x, List.mem_append_left _ hx, hid, hr⟩
+            | exitBegin b =>
+              simp only [PidRegistry.step]; split
+              · exact ⟨x, hx, hid, hr⟩
+              · split
+                · exact ⟨x, hx, hid, hr⟩
+                · refine ⟨if x.id = b then { x with phase := 1 } else x, ?_, ?_, ?_⟩
+                  · simp only [setPhase, List.mem_map]; exact ⟨x, hx, rfl⟩
+                  · split <;> exact hid
+                  · split <;> exact hr
+            | exitEnd b =>
+              simp only [PidRegistry.step]; split
+              · exact ⟨x, hx, hid, hr⟩
+              · split
+                · exact ⟨x, hx, hid, hr⟩
+                · refine ⟨if x.id = b then { x with phase := 2 } else x, ?_, ?_, ?_⟩
+                  · simp only [setPhase, List.mem_map]; exact ⟨x, hx, rfl⟩
+                  · split <;> exact hid
+                  · split <;> exact hr
+            | monitor m => simp only [PidRegistry.step]; split <;> exact ⟨x, hx, hid, hr⟩
+            | demonitor m => exact ⟨x, hx, hid, hr⟩
+            | getAll => exact ⟨x, hx, hid, hr⟩
+            | whereIs b => exact ⟨x, hx, hid, hr⟩
+        exact keep ops _ ⟨x, hx, hid, hr⟩
+      · exact ih _ he
+  refine ⟨hloc, ?_⟩
+  obtain ⟨x, hx, hid, hr⟩ := hloc
+  intro y hy hyid
+  have : y = x := unique_of_nodup hinv.ids hy hx (by rw [hyid, hid])
+  subst this; exact hr
+
+/-- (bonus) `Spawn(a)` is reported exactly once to every monitor registered at the instant `a` is
+registered, and to nobody else, ever: in a run from ANY state, the `Spawn(a)` events of the whole run are
+precisely one per entry of the listener list at that instant (which has no duplicates, `pid_monitors_nodup`). -/
+theorem pid_spawn_reported_exactly (s₀ : PidRegistry.State) (pre post : List PidRegistry.Op) (a : Nat)
+    (hf : known (PidRegistry.run s₀ pre) a = false) :
+    (PidRegistry.trace s₀ (pre ++ .spawn a :: post)).filter (fun e => e.spawn && e.who == a)
+      = (PidRegistry.run s₀ pre).mons.map (fun m => ⟨m, true, a⟩) := by
+  rw [trace_append]
+  simp only [PidRegistry.trace, List.filter_append]
+  have h1 : (PidRegistry.trace s₀ pre).filter (fun e => e.spawn && e.who == a) = [] := by
+    rw [List.filter_eq_nil_iff]
+    intro e he hc
+    simp only [Bool.and_eq_true, beq_iff_eq] at hc
+    have := (trace_who s₀ pre e he).1
+    rw [hc.2, hf] at this; cases this
+  have h2 : (events (PidRegistry.run s₀ pre) (.spawn a)).filter (fun e => e.spawn && e.who == a)
+      = (PidRegistry.run s₀ pre).mons.map (fun m => ⟨m, true, a⟩) := by
+    simp only [events, hf, Bool.false_eq_true, ↓reduceIte]
+    rw [List.filter_eq_self]
+    intro e he
+    simp only [List.mem_map] at he
+    obtain ⟨m, _, rfl⟩ := he
+    simp
+  have h3 : (PidRegistry.trace (PidRegistry.step (PidRegistry.run s₀ pre) (.spawn a)) post).filter
+      (fun e => e.spawn && e.who == a) = [] := by
+    rw [List.filter_eq_nil_iff]
+    intro e he hc
+    simp only [Bool.and_eq_true, beq_iff_eq] at hc
+    have hk : known (PidRegistry.step (PidRegistry.run s₀ pre) (.spawn a)) a = true := by
+      rw [known_step]; simp [newId, hf]
+    have := no_spawn_after_known hk post e he hc.2
+    rw [hc.1] at this; cases this
+  rw [h1, h2, h3]; simp
+
+/-- (bonus) `Terminate(a)` is reported exactly once to every monitor registered at the instant `a`'s
+cleanup block runs — except `a` itself, which `set_status` demonitors first — and to nobody else, ever. -/
+theorem pid_terminate_reported_exactly (s₀ : PidRegistry.State) (pre post : List PidRegistry.Op) (a : Nat)
+    (x : PidRegistry.Actor) (hx : getA (PidRegistry.run s₀ pre) a = some x) (hp : x.phase = 0)
+    (hr : x.remote = false) (hin : a ∈ (PidRegistry.run s₀ pre).pids) :
+    (PidRegistry.trace s₀ (pre ++ .exitBegin a :: post)).filter (fun e => !e.spawn && e.who == a)
+      = ((PidRegistry.run s₀ pre).mons.filter (· != a)).map (fun m => ⟨m, false, a⟩) := by
+  rw [trace_append]
+  simp only [PidRegistry.trace, List.filter_append]
+  have h1 : (PidRegistry.trace s₀ pre).filter (fun e => !e.spawn && e.who == a) = [] := by
+    rw [List.filter_eq_nil_iff]
+    intro e he hc
+    simp only [Bool.and_eq_true, Bool.not_eq_true', beq_iff_eq] at hc
+    have := (trace_who s₀ pre e he).2 hc.1
+    rw [hc.2] at this; exact this hin
+  have h2 : (events (PidRegistry.run s₀ pre) (.exitBegin a)).filter (fun e => !e.spawn && e.who == a)
+      = ((PidRegistry.run s₀ pre).mons.filter (· != a)).map (fun m => ⟨m, false, a⟩) := by
+    simp only [events, hx, hp, hr, hin, and_self, ↓reduceIte]
+    rw [List.filter_eq_self]
+    intro e he
+    simp only [List.mem_map] at he
+    obtain ⟨m, _, rfl⟩ := he
+    simp
+  have h3 : (PidRegistry.trace (PidRegistry.step (PidRegistry.run s₀ pre) (.exitBegin a)) post).filter
+      (fun e => !e.spawn && e.who == a) = [] := by
+    rw [List.filter_eq_nil_iff]
+    intro e he hc
+    simp only [Bool.and_eq_true, beq_iff_eq] at hc
+    have hk : known (PidRegistry.step (PidRegistry.run s₀ pre) (.exitBegin a)) a = true :=
+      known_step_mono _ (getA_known hx)
+    have hg : a ∉ (PidRegistry.step (PidRegistry.run s₀ pre) (.exitBegin a)).pids := by
+      simp [PidRegistry.step, hx, hp, hr]
+    exact silent_after_gone hk hg post e he hc.2
+  rw [h1, h2, h3]; simp
+
+/-- (bonus) the same from the initial state, for every live local actor. -/
+theorem pid_terminate_of_live_local (pre post : List PidRegistry.Op) (a : Nat)
+    (hl : a ∈ liveLocals (PidRegistry.run PidRegistry.init pre)) :
+    (PidRegistry.trace PidRegistry.init (pre ++ .exitBegin a :: post)).filter (fun e => !e.spawn && e.who == a)
+      = ((PidRegistry.run PidRegistry.init pre).mons.filter (· != a)).map (fun m => ⟨m, false, a⟩) := by
+  have h := PidRegistry.inv_run PidRegistry.inv_init pre
+  have hk := liveLocals_known hl
+  cases hx : getA (PidRegistry.run PidRegistry.init pre) a with
+  | none => rw [getA_none_known hx] at hk; cases hk
+  | some x =>
+    have := (mem_liveLocals_getA h.ids hx).mp hl
+    exact pid_terminate_reported_exactly _ pre post a x hx this.2 this.1 (by rw [h.pids]; exact hl)
+
+/-- (bonus) Spawn before Terminate: once `Terminate(a)` has been sent to anybody, `Spawn(a)` is never
+sent to anybody — for every run from every state. -/
+theorem pid_spawn_before_terminate (s₀ : PidRegistry.State) (ops : List PidRegistry.Op) (l₁ l₂ : List Ev)
+    (e : Ev) (hsplit : PidRegistry.trace s₀ ops = l₁ ++ e :: l₂) (he : e.spawn = false) :
+    ∀ e' ∈ l₂, e'.who = e.who → e'.spawn = false := by
+  have h := okOrder_trace s₀ ops
+  rw [hsplit, okOrder_append] at h
+  have h2 := h.2.1
+  simp only [okOrder, Bool.and_eq_true, Bool.or_eq_true] at h2
+  rcases h2.1 with h3 | h3
+  · rw [he] at h3; cases h3
+  · intro e' he' hw
+    simp only [spawnFree, List.all_eq_true, Bool.not_eq_true', Bool.and_eq_false_iff,
+      beq_eq_false_iff_ne] at h3
+    rcases h3 e' he' with h4 | h4
+    · exact h4
+    · exact absurd hw h4
+
+/-- (bonus) no recipient is ever sent the same event twice, in any run; and the listener list never
+holds an actor twice (`monitor` is idempotent). -/
+theorem pid_never_reported_twice (ops : List PidRegistry.Op) :
+    (PidRegistry.trace PidRegistry.init ops).Nodup ∧ (PidRegistry.run PidRegistry.init ops).mons.Nodup :=
+  ⟨trace_nodup PidRegistry.inv_init ops, (PidRegistry.inv_run PidRegistry.inv_init ops).mons⟩
+
+/-- (bonus) an actor that exits is removed from the listener list by its own cleanup block. -/
+theorem pid_exiting_monitor_removed (ops : List PidRegistry.Op) (a : Nat)
+    (ha : alive (PidRegistry.run PidRegistry.init ops) a = true) :
+    a ∉ (PidRegistry.step (PidRegistry.run PidRegistry.init ops) (.exitBegin a)).mons := by
+  obtain ⟨x, hx, hp⟩ := alive_getA (PidRegistry.inv_run PidRegistry.inv_init ops) ha
+  simp [PidRegistry.step, hx, hp]
+
+/-- The run-time oracle of engine `pidmon` (`failingStep`: get_all_pids = live locals, where_is_pid
+agrees, no event about a remote or unknown actor, every live listener of the instant handles the event
+exactly once and nobody else handles anything, an exiting monitor leaves the list, remote creation is
+invisible) never fails on the model, whatever happened before. -/
+theorem pid_oracle_step (ops : List PidRegistry.Op) (op : PidRegistry.Op) :
+    failingStep (PidRegistry.view (PidRegistry.run PidRegistry.init ops)) op
+      (PidRegistry.view (PidRegistry.step (PidRegistry.run PidRegistry.init ops) op))
+      (delivered (PidRegistry.run PidRegistry.init ops) op) = [] :=
+  failingStep_nil (PidRegistry.inv_run PidRegistry.inv_init ops) op
+
+/-- The history oracle (`failingHist`: per recipient no `Spawn(a)` after `Terminate(a)`, nothing handled
+twice) never fails on the events the model's listeners handle. -/
+theorem pid_oracle_hist (ops : List PidRegistry.Op) :
+    failingHist (dtrace PidRegistry.init ops) = [] := by
+  have hsub := dtrace_sublist PidRegistry.init ops
+  have h1 : okOrderPer (dtrace PidRegistry.init ops) = true := by
+    simp only [okOrderPer, List.all_eq_true]
+    intro e _
+    exact okOrder_sublist (List.Sublist.trans List.filter_sublist hsub) (okOrder_trace _ ops)
+  have h2 : (dtrace PidRegistry.init ops).Nodup :=
+    List.Nodup.sublist hsub (trace_nodup PidRegistry.inv_init ops)
+  simp [failingHist, h1, h2]
+
+/-! ### Non-vacuity (tests, not theorems) -/
+
+/-- two monitors (one of them a remote-id actor), a third actor spawns and exits, monitor 1 exits
+(it is not told of its own termination, monitor 2 is), a late monitor sees only what follows -/
+example :
+    PidRegistry.trace PidRegistry.init
+      [.spawn 1, .remote 2, .monitor 1, .monitor 2, .monitor 1, .spawn 3, .exitBegin 3, .exitEnd 3,
+       .exitBegin 1, .spawn 4, .monitor 4, .exitBegin 2, .spawn 5, .exitBegin 4] =
+      [⟨1, true, 3⟩, ⟨2, true, 3⟩, ⟨1, false, 3⟩, ⟨2, false, 3⟩, ⟨2, false, 1⟩, ⟨2, true, 4⟩, ⟨4, true, 5⟩] := by
+  decide
+
+/-- hypotheses of `pid_spawn_reported_exactly` / `pid_terminate_reported_exactly` are satisfiable -/
+example : known (PidRegistry.run PidRegistry.init [.spawn 1, .monitor 1]) 3 = false ∧
+    getA (PidRegistry.run PidRegistry.init [.spawn 1, .monitor 1, .spawn 3]) 3 = some ⟨3, false, 0⟩ ∧
+    3 ∈ (PidRegistry.run PidRegistry.init [.spawn 1, .monitor 1, .spawn 3]).pids := by decide
+
+/-- what the code does with `monitor()` on an actor that has already exited: the entry stays for ever
+(nobody runs `demonitor` for it again) — its events are sent and silently lost -/
+example :
+    let s := PidRegistry.run PidRegistry.init [.spawn 0, .exitBegin 0, .exitEnd 0, .monitor 0, .spawn 1]
+    s.mons = [0] ∧ alive s 0 = false ∧
+    events (PidRegistry.run PidRegistry.init [.spawn 0, .exitBegin 0, .exitEnd 0, .monitor 0]) (.spawn 1)
+      = [⟨0, true, 1⟩] ∧
+    delivered (PidRegistry.run PidRegistry.init [.spawn 0, .exitBegin 0, .exitEnd 0, .monitor 0]) (.spawn 1) = [] := by
+  decide
+
+/-- the oracle does fail on wrong observations: an event to an actor that monitors only later, a
+missing event, an event about a remote actor, a pid table with a remote entry -/
+example :
+    let s := PidRegistry.run PidRegistry.init [.spawn 1, .remote 2, .monitor 1]
+    failingStep (PidRegistry.view s) (.spawn 3) (PidRegistry.view (PidRegistry.step s (.spawn 3)))
+        [⟨1, true, 3⟩, ⟨2, true, 3⟩] = ["pid-event-to-non-monitor-or-unexpected"] ∧
+    failingStep (PidRegistry.view s) (.spawn 3) (PidRegistry.view (PidRegistry.step s (.spawn 3))) []
+        = ["pid-lifecycle-event-missing-or-duplicated"] ∧
+    failingStep (PidRegistry.view s) (.getAll) (PidRegistry.view s) [⟨1, true, 2⟩]
+        = ["pid-event-for-remote-actor", "pid-event-to-non-monitor-or-unexpected"] ∧
+    failingStep (PidRegistry.view s) (.getAll) { PidRegistry.view s with pids := [1, 2] } []
+        = ["get-all-pids-not-live-locals", "where-is-pid-disagrees"] ∧
+    failingHist [⟨1, false, 3⟩, ⟨1, true, 3⟩] = ["terminate-before-spawn"] := by
+  decide
+
 end C10
 
 #print axioms C10.ok_reachable
@@ -277,3 +780,33 @@ end C10
 #print axioms C10.late_drain_is_noop
 #print axioms C10.exiting_actor_env_frame
 #print axioms C10.drain_keeps_tables
+#print axioms C10.conc_invariant
+#print axioms C10.conc_name_has_one_owner
+#print axioms C10.failed_registration_leaves_no_name
+#print axioms C10.rollback_removes_own_entry
+#print axioms C10.name_without_pid_window
+#print axioms C10.whereIs_sound_conc
+#print axioms C10.whereIs_unsound_without_caller_order
+#print axioms C10.name_free_after_exit_conc
+#print axioms C10.pid_table_is_live_locals
+#print axioms C10.spawn_reported_to_current_monitors
+#print axioms C10.terminate_reported_to_current_monitors
+#print axioms C10.pid_events_once_in_order
+#print axioms C10.set_status_block_matches_source
+#print axioms C10.stopped_call_sites_match_source
+#print axioms C10.unregister_guarded_by_is_local
+#print axioms C10.constructor_order_matches_source
+#print axioms C10.pid_registry_guards_match_source
+#print axioms C10.pid_get_all_refines
+#print axioms C10.pid_where_is_agrees
+#print axioms C10.pid_remote_invisible
+#print axioms C10.pid_remote_exit_silent
+#print axioms C10.pid_nothing_for_remote
+#print axioms C10.pid_spawn_reported_exactly
+#print axioms C10.pid_terminate_reported_exactly
+#print axioms C10.pid_terminate_of_live_local
+#print axioms C10.pid_spawn_before_terminate
+#print axioms C10.pid_never_reported_twice
+#print axioms C10.pid_exiting_monitor_removed
+#print axioms C10.pid_oracle_step
+#print axioms C10.pid_oracle_hist
